@@ -146,7 +146,11 @@ func (p *pool) run(cases []*Case, deadline time.Time, sink func(c *Case, outs []
 }
 
 func (p *pool) exec(w *worker, c *Case) ([]Out, string) {
-	b, err := json.Marshal(c.Req)
+	req := c.Req
+	if req.TimeoutMS == 0 && hangsSeen.Load() >= 8 {
+		req.TimeoutMS = 10000
+	}
+	b, err := json.Marshal(req)
 	if err != nil {
 		vx.Fatalf("marshal request: %v", err)
 	}
@@ -295,8 +299,11 @@ func panicClass(s string) string {
 	// the dynamic type found by a failed assertion depends on the input, the
 	// asserted type identifies the assertion
 	s = reIfaceIs.ReplaceAllString(s, "interface conversion: $1 is …, not ")
+	s = reUncomparable.ReplaceAllString(s, "comparing uncomparable type …")
 	return normMsg(s)
 }
+
+var reUncomparable = regexp.MustCompile(`comparing uncomparable type .*`)
 
 var reIfaceIs = regexp.MustCompile(`interface conversion: (interface \{\}|[A-Za-z0-9_.*]+) is .*?, not `)
 
